@@ -286,7 +286,9 @@ Definition run_helpers (g : its) (ks : list Z) : tok :=
 (** the same plus n_knn = -1 (only for graphs whose adjacency order is the edge-list order) *)
 Definition run_lre (g : its) : tok :=
   let rcn := node_ids (get_rc g) in
-  L [tlist tN (lre g rcn); tctx (extract_k_z g (-1))].
+  L [tlist tN (lre g rcn); tctx (extract_k_z g (-1));
+     (* round 5: the search from every single centre atom, and with the centre atoms in reverse order *)
+     tlist (fun n => tlist tN (lre g [n])) rcn; tlist tN (lre g (rev rcn))].
 (** a list of reaction dicts through paralle_context_extraction *)
 Definition run_list (gs : list its) (k : Z) : tok :=
   tlist (fun p : its * its => L [tits (fst p); tits (snd p)]) (context_list gs k).
